@@ -312,6 +312,18 @@ fn fam_liveness(n: u64) -> (String, Vec<String>) {
     (s, out)
 }
 
+/// A second scoping probe placed after everything else, so that its calls are the last ones the
+/// resolver records: names must resolve lexically for the tail of a huge program as well.
+const TAIL_PROBE: &str = "do zz_ttag() start\nreturn \"t-outer\"\nend\ndo zz_tprobe() start\nreturn zz_ttag()\nend\nstart\ndo zz_ttag() start\nreturn \"t-inner\"\nend\nshout(zz_ttag())\nshout(zz_tprobe())\nend\n";
+const TAIL_OUT: [&str; 2] = ["t-inner", "t-outer"];
+
+fn build_family(f: &Family, n: u64) -> (String, Vec<String>) {
+    let (mut src, mut expected) = (f.build)(n);
+    src.push_str(TAIL_PROBE);
+    expected.extend(TAIL_OUT.iter().map(|x| x.to_string()));
+    (src, expected)
+}
+
 fn families() -> Vec<Family> {
     vec![
         Family { name: "statements", target: "statements", build: fam_statements },
@@ -331,7 +343,7 @@ fn families() -> Vec<Family> {
 /// Smallest n whose observed target metric exceeds the cap (None if the source would pass 48 MB).
 fn search(f: &Family, log: &mut Vec<serde_json::Value>) -> Option<u64> {
     let cap = cap_of(f.target);
-    let at = |n: u64| -> u64 { observe(&(f.build)(n).0, false).metrics.get(f.target) };
+    let at = |n: u64| -> u64 { observe(&build_family(f, n).0, false).metrics.get(f.target) };
     // linear extrapolation from two small sizes gives the bracket, bisection finishes
     let (n1, n2) = (16u64, 48u64);
     let (m1, m2) = (at(n1), at(n2));
@@ -375,7 +387,7 @@ fn search(f: &Family, log: &mut Vec<serde_json::Value>) -> Option<u64> {
 
 fn judge(ctx: &mut Ctx, idx: u64, f: &Family, n: u64, position: &str, naija: Option<&str>, scratch: Option<&str>) {
     ctx.out.evaluations += 1;
-    let (src, expected) = (f.build)(n);
+    let (src, expected) = build_family(f, n);
     let replay = json!({"family": f.name, "target": f.target, "size": n, "position": position});
     let o = match util::guarded(|| observe(&src, true)) {
         Ok(o) => o,
@@ -628,7 +640,14 @@ pub fn run(ctx: &mut Ctx) {
         // two families take minutes in the implementation's resolver (quadratic bookkeeping of
         // direct callees / scopes); they are left to the thorough tier
         if ctx.opt("skip-slow").is_some() && matches!(f.target, "user_calls" | "total_blocks") {
-            ctx.out.tag(&format!("skipped-in-quick.{}", f.target));
+            if f.target == "user_calls" {
+                // no search in the quick tier: one program a little above the cap (the contract is
+                // evaluated on the observed metrics, whatever they turn out to be)
+                judge(ctx, idx, f, cap_of("user_calls") + 56, "above-fixed-size", naija.as_deref(), scratch.as_deref());
+                ctx.out.tag("quick-fixed-size-probe.user_calls");
+            } else {
+                ctx.out.tag(&format!("skipped-in-quick.{}", f.target));
+            }
             continue;
         }
         let mut log = Vec::new();
